@@ -1,3 +1,3 @@
 #!/bin/sh
 # replays this counterexample against the real build
-cd /tmp/seedonly_C17d_3932 && VERIF_SCRIPT=/verif/replays/C17/VHarnessWalletMeltLost_faae50e6_0/script.json VERIF_RAW_SALT=0 GOFLAGS=-mod=mod GOPROXY=off go test -vet=off -count=1 -overlay /verif/replays/C17/VHarnessWalletMeltLost_faae50e6_0/overlay.json -run ^TestVerifReplay_VHarnessWalletMeltLost$ -v ./wallet
+cd /tmp/seedrepo_C17d && VERIF_SCRIPT=/verif/replays/C17/VHarnessWalletMeltLost_faae50e6_0/script.json VERIF_RAW_SALT=0 GOFLAGS=-mod=mod GOPROXY=off go test -vet=off -count=1 -overlay /verif/replays/C17/VHarnessWalletMeltLost_faae50e6_0/overlay.json -run ^TestVerifReplay_VHarnessWalletMeltLost$ -v ./wallet
